@@ -247,9 +247,13 @@ pub fn tree_worker(prop: &str, tier: &str, k: usize, n: usize, ctx: &mut Ctx) {
     "C03" => sweep(ctx, &general_scope(tier), k, n, &all, &mut |c, t| tc::c03(c, t)),
     "C04" => sweep(ctx, &provenance_scope(tier), k, n, &no_cached_under_replace, &mut |c, t| tc::c04(c, t)),
     "C07" => {
-      sweep(ctx, &general_scope(tier), k, n, &all, &mut |c, t| tc::c07_views(c, t));
+      sweep(ctx, &general_scope(tier), k, n, &all, &mut |c, t| {
+        tc::c07_views(c, t);
+        tc::c07_staged_concat(c, t)
+      });
       sweep(ctx, &wild_scope(tier), k, n, &all, &mut |c, t| {
         tc::c07_views(c, t);
+        tc::c07_staged_concat(c, t);
         tc::c07_faults(c, t)
       });
       // byte buffers that cut multi-byte sequences at their borders, as adjacent children handed over
@@ -598,6 +602,13 @@ pub fn c06_pool(tier: &str) -> (Vec<Term>, Vec<Term>) {
   }
   small.push(Term::replace(pool[12].clone(), vec![Repl::new(1, 2, "X")]));
   small.push(Term::cached(pool[14].clone()));
+  // a cache whose subtree announces a content-less source before one with content (a map built
+  // from the stream has to keep each content with its own file)
+  {
+    use crate::refcodec::Seg;
+    let nc = Term::sms("ab\n", "nc.js", trees::map_spec(vec![Seg { gl: 1, gc: 0, orig: Some(K_A) }], false));
+    small.push(Term::cached(Term::concat(vec![nc, Term::orig("a;b", &trees::file_for("a;b", trees::TEXTS_FULL))])));
+  }
   (pool, small)
 }
 
